@@ -35,13 +35,15 @@ PROFILE = gen.profile(
   p_gravcomp=0.4,
   fluid=0.5,
   tendon_fixed=0.5,
-  tendon_spatial=0.4,
+  tendon_spatial=0.6,
   p_limit=0.0,
   p_mocap=0.1,
   actuators=2,
   act_kinds=("motor", "position", "general"),
   p_massless=0.1,
   p_fluid_ellipsoid=0.35,
+  p_tendon_armature=0.6,
+  p_free=0.4,
   act_ball=False,  # ball/free-joint servos are C03's subject (MuJoCo 3.13 wraps their position error)
 )
 
